@@ -12,6 +12,10 @@ CLAIMED = {
         text="Lean 4 proofs over a model of the eventsource-stream parser and of EventStream::poll_next: completed lines are prefix-stable, draining is append-compatible, UTF-8 splitting is append-compatible, hence the inner result sequence is independent of chunking and Pending interleaving (chunk_invariance); poll_next yields one item per non-empty-data event, skips empty ones, continues after bad events, returns Pending only after an inner Pending and ends exactly at the end (poll_spec, no_lost_wakeup, exactly_once) — for all byte streams, chunkings and schedules. Tied to the code by running the real EventStream<Value> over scripted reqwest bodies (all chunkings of short streams + random).",
         note="Trusted: Lean kernel; Sem/Sse.lean as a model of eventsource-stream 0.2.3/nom (validated only by the differential runs); reqwest body plumbing; dec (serde_json) is a parameter. Two inner-crate defects (trailing bare CR, leading BOM panic) are reproduced by the model and recorded as known findings.",
         ref="§6 C20"),
+    "C04": dict(
+        text="Lean 4 proofs over status tables REGENERATED from status_codes.rs/http.rs/structs.rs on every run (token<->code<->http constant<->condition agree for every row; exact keys sort before their range key) and over a model of build_enum/build_status_handlers and of the emitted if-chain: for well-formed single-media responses the chain picks, for every status 100-599, the variant of the exact key, else NXX, else default/Unknown (dispatch_spec). The model's chain is compared with the chain emitted by the current sources (parsed with syn) and the emitted chain itself is judged for all 500 codes x 10 content types on every generated responses object.",
+        note="Trusted: Lean kernel; translator for the tables; numeric values of http::StatusCode constants (hand table checked against the http crate each run); syn extraction of the chain; serde body decoding not modelled. Three defect classes (content-type fall-through, non-canonical keys, schema-suffix panic) are reproduced by the model and recorded as known findings.",
+        ref="§6 C04"),
 }
 PENDING = ["C01","C02","C03","C04","C05","C06","C07","C08","C10","C11","C12","C13","C14","C15","C16","C17","C18","C19","C20"]
 
